@@ -25,6 +25,9 @@ pub fn kinds() -> Vec<UKind> {
         UKind::OptF64,
         UKind::RevF32,
         UKind::RevF64,
+        UKind::Smh2U64NoHash,
+        UKind::OptF64NoHash,
+        UKind::RevF64NoHash,
     ]
 }
 
@@ -99,10 +102,10 @@ fn one_stream(i: u64, seed: u64, tier: Tier) -> Out {
     while (m as u64) * (nd as u64) > 3_000_000 && m > 4 {
         m /= 2;
     }
-    if matches!(kind, UKind::RevF32 | UKind::RevF64) && m > 2000 {
+    if kind.is_rev() && m > 2000 {
         m = 2000; // reverse densification reseeds a ChaCha generator per bin and pass
     }
-    let ids = fresh_ids(&mut rng, nd, 0);
+    let ids = if kind.is_nohash() && rng.random_range(0..3) > 0 { ids_with_specials(&mut rng, nd) } else { fresh_ids(&mut rng, nd, 0) };
     // stream with duplicates
     let mut stream: Vec<u64> = ids.clone();
     let ndup = match rng.random_range(0..3) {
